@@ -1,3 +1,4 @@
+pub mod calloc;
 pub mod explore;
 pub mod fam;
 pub mod fmt;
